@@ -59,7 +59,9 @@ def _used_objects(kind):
 
 def build(tier, seed):
     set_tier(tier)
-    tasks = [Task(f"{PROP}.S.deplist", PROP, "Project.correlate deplist", lambda: __import__("contracts.deps", fromlist=["x"]).deplist_obligations(PROP, lambda: __import__("bounded.c07", fromlist=["x"]).search())),
+    tasks = [standin_task(PROP, "projects.end_to_end", lambda: __import__("bounded.c16", fromlist=["x"]).search(("end_to_end",)), "ford.main on project A (externalize) then project B (external)",
+                          "names re-exported by a module of an external project (renamed ones included) resolve in B to A's entities under their local names; B's own entities win", "1 project pair"),
+             Task(f"{PROP}.S.deplist", PROP, "Project.correlate deplist", lambda: __import__("contracts.deps", fromlist=["x"]).deplist_obligations(PROP, lambda: __import__("bounded.c07", fromlist=["x"]).search())),
              Task(f"{PROP}.S.block_scope", PROP, "statement dispatch", lambda: scoping.block_scope_guards(PROP, lambda: __import__("bounded.c07", fromlist=["x"]).search())),
              Task(f"{PROP}.S.find_used_modules", PROP, "find_used_modules", lambda: __import__("contracts.external", fromlist=["x"]).find_used_modules_recursion(PROP, lambda: __import__("bounded.c07", fromlist=["x"]).search())),
              a_task(PROP, _with_search(scoping.parent_submodule_block)),
